@@ -149,7 +149,7 @@ EXPORT errno_t _wcstombs_s_chk(size_t *restrict retvalp, char *restrict dest,
             }
             BND_CHK_PTR_BOUNDS(dest, destsz);
         } else {
-            if (unlikely(dmax > destbos || len > destbos)) {
+            if (unlikely(dmax > destbos || len > RSIZE_MAX_WSTR)) {
                 if (unlikely(dmax > RSIZE_MAX_WSTR || len > RSIZE_MAX_WSTR)) {
                     handle_error(dest, destbos,
                                  "wcstombs_s"
